@@ -3,6 +3,7 @@ import json
 import os
 import sys
 import time
+from . import hirq
 
 from . import facts
 
@@ -33,6 +34,7 @@ class Ctx:
         self.tier = tier
         self.prog = prog
         self.prog_all = prog_all
+        hirq.PROGRAM_CONSTS = hirq.ProgramConsts(prog)
         self.rules = {}        # rule -> {"desc":..., "obligations":n, "discharged":n, "floor":n}
         self.violations = []
         self.samples = []
